@@ -405,9 +405,35 @@ def r4_order(chk: Check):
     chk.require(ok, chk.fkey(fd, "first launcher wins"), "find must return the launcher of the first alternative that has one", loc)
 
 
+def r5_conjunction_per_dimension(chk: Check):
+    """`a & b` asks for the maximum of *each* dimension: CPU specifications are not totally ordered (more memory vs more cores), so taking
+    "the larger specification" drops one side's demand"""
+    tree = chk.tree
+    f = tree.func("launcherfinder.specs", "HostSimpleRequirement._add")
+    g = CFG(f.node)
+    rd = ReachingDefs(g)
+    p = f.node.args.args[1].arg
+    loc = chk.loc(f.module, f.node)
+    want = {"self.cpu.memory": {f"{p}.cpu.memory", "self.cpu.memory"}, "self.cpu.cores": {f"{p}.cpu.cores", "self.cpu.cores"}, "self.duration": {f"{p}.duration", "self.duration"}}
+    got = {}
+    for n in g.live:
+        if n.kind == "stmt" and isinstance(n.ast, ast.Assign):
+            for t in n.ast.targets:
+                ts = src(t)
+                v = n.ast.value
+                if ts in want and isinstance(v, ast.Call) and dotted(v.func) == "max" and len(v.args) == 2:
+                    got[ts] = {rd.canon(a, n) for a in v.args}
+                elif ts in ("self.cpu",) or (ts in want and ts not in got):
+                    got[ts] = {"<" + src(v)[:60] + ">"}
+    ok = all(got.get(k) == v for k, v in want.items()) and "self.cpu" not in got and g.on_every_path([n for n in g.live if n.kind == "stmt" and isinstance(n.ast, ast.Assign) and src(n.ast.targets[0]) == "self.cpu.memory"])
+    chk.require(ok, chk.fkey(f, "maximum of each dimension"), f"the conjunction merges the operands with {got}; expected the maximum of memory, of cores and of duration separately (each on every path): "
+                "a request `cpu(mem=32G) & cpu(cores=4)` must keep both demands", loc)
+
+
 RULES = [
     ("R1", "per-dimension sufficiency: CPU `<` is short-of-memory OR short-of-cores; GPU match needs enough memory; decision table of HostSimpleRequirement.match over all assignments of its 7 atoms", r1_sufficiency),
     ("R2", "ownership analysis of __and__ / __mul__ / __or__: no in-place mutation reaches an operand (self, other) directly, through a shallow copy, or through a helper's mutation summary", r2_operands_unaltered),
     ("R3", "text = program: every structural grammar rule has a visitor; spec keys are keyword parameters of the specs constructors; & / * / | map to the operators; literals are suppressed", r3_text_equals_program),
+    ("R5", "conjunction (`&`, constructor, text) takes the maximum of every dimension separately: memory, cores, duration; GPUs are concatenated", r5_conjunction_per_dimension),
     ("R4", "alternatives are tried in the order given: union keeps order and replaces only on a strictly greater score; find collects in one ordered pass and returns the first launcher", r4_order),
 ]
